@@ -131,6 +131,20 @@ where
     let hm = Mirror::of(proof).unwrap();
     let base = crate::interp::cur::verify_program::<G>(&prog, &po.vs, proof, &env.pc, &env.bp);
     if base.res.is_err() {
+        // the roles must stay in sync even if the verdict is wrong: a differing event (not a mere
+        // early stop of the verifier) between the prover's and the verifier's sequences is this
+        // property's subject; a rejected honest proof with identical sequences is C01's
+        let ep = main_shapes(&po.log);
+        let ev = main_shapes(&base.log);
+        let n = ep.len().min(ev.len());
+        if let Some(i) = (0..n).find(|i| ep[*i] != ev[*i]) {
+            o.violate(
+                "prover-verifier-out-of-sync",
+                format!("prover and verifier transcript operation sequences differ at event {} (prover {:?}, verifier {:?}); the honest proof is rejected", i, (ep[i].kind, mon::lbl(&ep[i].label), ep[i].data.len()), (ev[i].kind, mon::lbl(&ev[i].label), ev[i].data.len())),
+                json!({"program": prog, "prover_schedule": render_shapes(&ep, 80), "verifier_schedule": render_shapes(&ev, 80)}),
+            );
+            return o;
+        }
         o.inconclusive = Some("honest proof not accepted (see C01)".into());
         return o;
     }
